@@ -569,12 +569,12 @@ V("C17", "leader-slice-1-for-slashes", "fire", (SRC, "                value = va
 V("C17", "no-strip", "fire", (SRC, "                value = value[1:].strip()", "                value = value[1:]"), "'# nocl' has a leading blank", "strip")
 V("C17", "marker-upper-literal", "fire", (SRC, "return value.startswith(\"nocl\")", "return value.startswith(\"NOCL\")"), "compared after lower-casing with an upper-case literal", "marker-literal")
 V("C17", "line-of-first-header-token", "fire", (SU, "s.header.name_token.location.line not in nocl_comment_lines", "tokens_line(s) not in nocl_comment_lines"),
-  "line of another token decides", "which-line")
+  "line of another token decides", "rule=R")
 VARIANTS[-1]["edits"].append((SU, "def has_name_prefix(", "def tokens_line(s):\n    return s.header.token_range.start\n\n\ndef has_name_prefix("))
 V("C17", "markers-from-filtered", "fire", (SU, "    nocl_comment_tokens = filter_nocl_comment_tokens(tokens)", "    nocl_comment_tokens = filter_nocl_comment_tokens(code_tokens)"),
-  "markers searched in the comment-free list", "marker-source")
+  "markers searched in the comment-free list", "rule=R")
 V("C17", "filter-after-nesting", "fire", (SU, "    if language.allow_nested_functions:\n        return fold_scopes(filtered_scopes)", "    if language.allow_nested_functions:\n        return fold_scopes(scopes)"),
-  "marked functions reported for nesting languages", "fold_scopes-input")
+  "marked functions reported for nesting languages", "rule=R")
 V("C17", "casefold-silent", "silent", (SRC, "            value = token.value.lower()\n", "            value = token.value.casefold()\n"), "casefold instead of lower")
 V("C17", "set-of-lines-silent", "silent", (SU, "    nocl_comment_lines = [t.location.line for t in nocl_comment_tokens]", "    nocl_comment_lines = {t.location.line for t in nocl_comment_tokens}"), "set instead of list")
 
@@ -582,13 +582,13 @@ V("C17", "set-of-lines-silent", "silent", (SU, "    nocl_comment_lines = [t.loca
 TOK = "codelimit/common/Token.py"
 LEX = "codelimit/common/lexer_utils.py"
 V("C04", "empty-text-is-code", "fire", (TOK, "        ) and not self.value.strip()", "        ) and self.value.isspace()"), "pre-fix: zero-length Text token counted", "blank-text-kept")
-V("C04", "scan-file-raw-tokens", "fire", (SCN, "            length = count_lines(scope, code_tokens)", "            length = count_lines(scope, tokens)"), "lines counted on the raw list", "scan_file/count_lines")
+V("C04", "scan-file-raw-tokens", "fire", (SCN, "            length = count_lines(scope, code_tokens)", "            length = count_lines(scope, tokens)"), "lines counted on the raw list", "rule=R")
 V("C04", "build-scopes-keep-comments", "fire", (SU, "    code_tokens = filter_tokens(tokens)\n    nocl_comment_tokens", "    code_tokens = filter_tokens(tokens, keep_comments=True)\n    nocl_comment_tokens"),
   "comments take part in header matching", "build_scopes")
 V("C04", "count-lines-span", "fire", (SU, "    return len(set([t.location.line for t in _scope_tokens(scope, tokens)]))",
-                                      "    ts = _scope_tokens(scope, tokens)\n    return ts[-1].location.line - ts[0].location.line + 1"), "span-based count includes comment lines", "count_lines")
+                                      "    ts = _scope_tokens(scope, tokens)\n    return ts[-1].location.line - ts[0].location.line + 1"), "span-based count includes comment lines", "rule=R")
 V("C04", "count-lines-no-dedup", "fire", (SU, "    return len(set([t.location.line for t in _scope_tokens(scope, tokens)]))", "    return len([t.location.line for t in _scope_tokens(scope, tokens)])"),
-  "counts tokens, not lines", "count_lines")
+  "counts tokens, not lines", "rule=R")
 V("C04", "count-lines-setcomp-silent", "silent", (SU, "    return len(set([t.location.line for t in _scope_tokens(scope, tokens)]))", "    return len({t.location.line for t in _scope_tokens(scope, tokens)})"), "set comprehension")
 V("C04", "is-comment-exact", "fire", (TOK, "        return self.token_type in Comment", "        return self.token_type == Comment"), "only the bare Comment type is filtered", "comment-kept")
 V("C16", "lex-keeps-comments-always", "fire", (LEX, "    if filter_comments:\n        return filter_tokens(tokens)\n    else:\n        return filter_tokens(tokens, keep_comments=True)", "    return filter_tokens(tokens, keep_comments=True)"),
@@ -606,8 +606,8 @@ V("C16", "lex-sorted", "fire", (LEX, "        return filter_tokens(tokens)\n", "
 
 # ------------------------------------------------------------------ C01 / C05
 HDR = "codelimit/common/scope/Header.py"
-V("C01", "scope-tokens-gt-end", "fire", (SU, "index >= children_token_ranges[0].end", "index > children_token_ranges[0].end"), "pre-fix: parent token after a nested function dropped", "leave-child")
-V("C01", "scope-tokens-le-start", "fire", (SU, "index < children_token_ranges[0].start", "index <= children_token_ranges[0].start"), "child's first token counted for the parent", "before-child")
+V("C01", "scope-tokens-gt-end", "fire", (SU, "index >= children_token_ranges[0].end", "index > children_token_ranges[0].end"), "pre-fix: parent token after a nested function dropped", "rule=R")
+V("C01", "scope-tokens-le-start", "fire", (SU, "index < children_token_ranges[0].start", "index <= children_token_ranges[0].start"), "child's first token counted for the parent", "rule=R")
 V("C01", "span-end-at-block-end", "fire", (SCN, "            last_token = code_tokens[scope.block.end - 1]", "            last_token = code_tokens[min(scope.block.end, len(code_tokens) - 1)]"),
   "span ends at the token after the body", "span-end")
 V("C01", "span-end-no-length", "fire", (SCN, "                last_token.location.column + len(last_token.value),", "                last_token.location.column,"), "span ends before the last token", "span-end")
@@ -615,15 +615,15 @@ V("C01", "span-start-name-token", "fire", (SCN, "            start_location = co
   "span starts at the name instead of the header's first token", "span-start")
 V("C01", "span-on-raw-tokens", "fire", (SCN, "            last_token = code_tokens[scope.block.end - 1]", "            last_token = tokens[scope.block.end - 1]"), "index into the raw list", "scan_file")
 V("C01", "locals-renamed-silent", "silent", (SCN, "last_token", "final_tok", 4), "local renamed")
-V("C05", "no-re-reverse", "fire", (SU, "    result.reverse()\n    return result", "    return result"), "measurements in reverse source order", "_build_scopes/order")
+V("C05", "no-re-reverse", "fire", (SU, "    result.reverse()\n    return result", "    return result"), "measurements in reverse source order", "rule=R")
 V("C05", "sort-by-name", "fire", (HDR, "        key=lambda h: (tokens[h.token_range.start].location.line, tokens[h.token_range.start].location.column),", "        key=lambda h: h.name(),"),
-  "headers ordered by name", "sort_headers/key")
-V("C05", "sort-ignores-reverse", "fire", (HDR, "        reverse=reverse,\n", ""), "direction parameter ignored: scopes come out reversed", "sort_headers/direction")
+  "headers ordered by name", "rule=R")
+V("C05", "sort-ignores-reverse", "fire", (HDR, "        reverse=reverse,\n", ""), "direction parameter ignored: scopes come out reversed", "rule=R")
 V("C05", "name-from-other-tokens", "fire", (SU, "        name_token = next(t for t in pattern.tokens if t.is_name())", "        name_token = next(t for t in tokens[pattern.start - 1:] if t.is_name())"),
   "name may precede the span", "get_headers/name-token")
 V("C05", "cached-loc-other", "fire", (SCN, "            cached_entry.loc,\n", "            len(cached_entry.measurements()),\n"), "reused entry's total is the number of functions", "_scan_file/SourceFileEntry")
 V("C05", "unfold-children-first", "fire", (SU, "        result.append(scope)\n        result.extend(unfold_scopes(scope.children))", "        result.extend(unfold_scopes(scope.children))\n        result.append(scope)"),
-  "nested functions listed before their parent", "unfold_scopes")
+  "nested functions listed before their parent", "rule=R")
 
 # ------------------------------------------------------------------ C11
 CONF = "codelimit/common/Configuration.py"
